@@ -3,7 +3,7 @@ C16 — property theorems.  Every statement is about `run cfg ops` for ALL confi
 and ALL event sequences `ops`; the clause predicates are the ones in Spec.lean (each event is judged against the
 history that precedes it), i.e. exactly the oracle applied to the real implementation by the harness.
 -/
-import TornadoModel.C16.Lemmas2
+import TornadoModel.C16.Inv2Run
 namespace TornadoModel.C16
 open Spec
 
@@ -101,18 +101,50 @@ theorem waiting_ping_off (cfg : Cfg) (ops : List Op) (h : (run cfg ops).waiting 
     (run cfg ops).ping = .off :=
   (inv_run cfg ops).1.waitingPing h
 
-/-! ### stretch goals (not proved; covered by the correspondence + oracle only) -/
-
-/-- a close frame written after the peer's close frame was received echoes the peer's code -/
-def echo_unless_sent_goal : Prop := ∀ cfg ops, forallH echoesPeerCode (run cfg ops).log = true
-def both_closed_sends_close_goal : Prop := ∀ cfg ops, forallH bothClosedSendsClose (run cfg ops).log = true
-def teardown_both_closed_goal : Prop := ∀ cfg ops, forallH teardownBothClosed (run cfg ops).log = true
-def on_close_carries_peer_close_goal : Prop := ∀ cfg ops, forallH notifyCarriesPeerClose (run cfg ops).log = true
-
-/-! ### non-vacuity: concrete runs that exercise the clauses -/
-
 def srv : Cfg := { side := .server, pingOn := false, timeoutPos := false, gap := false }
 def cliPing : Cfg := { side := .client, pingOn := true, timeoutPos := true, gap := true }
+
+/-! ### clauses about the peer's close frame (second, step-boundary invariant `Inv2`, files Inv2*.lean)
+
+`peerOf h` = what the history says about the peer's close: its close frame arrived while the transport was up
+(`got code reason wellFormed`), the transport went down first, or nothing yet.  The clauses are conditional on
+"no asynchronous on_message was ever started" (`neverBlocked`), as in Spec.lean. -/
+
+/-- the second invariant holds after every run: the four clauses below, and at the step boundary the protocol's
+`close_code/close_reason` are exactly what the peer's close frame carried once the receive loop has finished -/
+theorem inv2_run (cfg : Cfg) (ops : List Op) : Inv2 (run cfg ops) := inv2_run_aux cfg ops
+
+/-- a close frame written after the peer's close frame was received echoes the peer's code (with
+`one_close_frame`: the code is echoed unless our own close frame had already been sent) -/
+theorem echo_unless_sent (cfg : Cfg) (ops : List Op) : forallH echoesPeerCode (run cfg ops).log = true :=
+  (inv2_run cfg ops).g1
+
+/-- at every step boundary after the peer's well-formed close frame was received our close frame is on the wire -/
+theorem both_closed_sends_close (cfg : Cfg) (ops : List Op) :
+    forallH bothClosedSendsClose (run cfg ops).log = true :=
+  (inv2_run cfg ops).g2
+
+/-- at every step boundary after the peer's close frame was received the transport is down -/
+theorem teardown_both_closed (cfg : Cfg) (ops : List Op) : forallH teardownBothClosed (run cfg ops).log = true :=
+  (inv2_run cfg ops).g3
+
+/-- the notification carries the peer's code and reason when a close frame was received, else `none none` -/
+theorem on_close_carries_peer_close (cfg : Cfg) (ops : List Op) :
+    forallH notifyCarriesPeerClose (run cfg ops).log = true :=
+  (inv2_run cfg ops).g4
+
+/-- state form: at the end of any run in which no asynchronous on_message was started and the receive loop has
+finished, `close_code/close_reason` are what the history says the peer sent -/
+theorem close_code_is_peers (cfg : Cfg) (ops : List Op) (hn : neverBlocked (run cfg ops).log = true)
+    (hd : (run cfg ops).loopDone = true) : PeerOK (run cfg ops) :=
+  ((inv2_run cfg ops).bnd hn).finished hd
+
+/-- non-vacuity of `close_code_is_peers`: the peer closes first with code 3000 and reason "o" -/
+example : neverBlocked (run srv [.recvClose [11, 184, 111] true]).log = true ∧
+    (run srv [.recvClose [11, 184, 111] true]).loopDone = true ∧
+    peerOf (run srv [.recvClose [11, 184, 111] true]).log = .got (some 3000) (some [111]) true := by decide
+
+/-! ### non-vacuity: concrete runs that exercise the clauses -/
 
 /-- crossing closes: our close frame, then the peer's; one frame, teardown, one notification with the peer's code -/
 example : trace srv [.localClose (some 1001) none, .recvClose [3, 232] true, .appWrite] =
@@ -134,5 +166,19 @@ example : trace cliPing [.timer, .timer, .appWrite, .timer] =
 example : trace srv [.recvData true, .recvClose [] true, .appWrite, .release, .probe] =
     [.op (.recvData true), .onMessage, .op (.recvClose [] true), .op .appWrite, .dataFrame, .writeOk,
      .op .release, .closeFrame [], .streamClosed, .notify none none, .op .probe, .idle] := by decide
+
+/-- the clauses about the peer's close are exercised (not vacuous): the history decides `got …`, a close frame,
+a teardown and a notification follow it -/
+example : peerOf (run srv [.localClose (some 1001) none, .recvClose [3, 232] true, .appWrite]).log =
+    .got (some 1000) none true := by decide
+
+/-- a malformed close frame (reason not UTF-8) is not answered but tears the connection down and is reported
+with its code only -/
+example : trace srv [.recvClose [3, 234, 255, 254] false, .probe] =
+    [.op (.recvClose [3, 234, 255, 254] false), .streamClosed, .notify (some 1002) none, .op .probe, .idle] := by decide
+
+/-- the transport goes down first: the notification carries nothing -/
+example : trace srv [.peerDisconnect, .recvClose [3, 232] true] =
+    [.op .peerDisconnect, .streamClosed, .notify none none, .op (.recvClose [3, 232] true)] := by decide
 
 end TornadoModel.C16
